@@ -19,6 +19,7 @@ pub struct Resp {
   pub complete: bool,
   /// why reading stopped when it did not end regularly (`eof`, `timeout`, `reset`, …)
   pub end: String,
+  #[allow(dead_code)]
   pub raw_len: usize,
 }
 
